@@ -61,6 +61,18 @@ static void emitVF(const char * solver, const char * rep, const PomdpTables & pt
     std::printf("#stat solver:%s 1\n#stat rep:%s 1\n#stat vectors_last:%zu 1\n", solver, rep, std::min<size_t>(last.size(), 9));
 }
 
+// findVerticesNaive on a parsimonious list (the final IncrementalPruning list): C02 verts <S> <n> {S values} | <k> {S coordinates, value}
+static void emitVerts(const PomdpTables & pt, const P::VList & vl) {
+    if (pt.S < 2 || vl.size() < 2 || vl.size() > 8) return;
+    auto vs = AIToolbox::findVerticesNaive(vl, P::unwrap);
+    Line l; l << "C02" << "verts" << pt.S << (size_t)vl.size();
+    for (const auto & e : vl) for (size_t s = 0; s < pt.S; ++s) l << (double)e.values[s];
+    l << "|" << (size_t)vs.first.size();
+    for (size_t i = 0; i < vs.first.size(); ++i) { for (size_t s = 0; s < pt.S; ++s) l << (double)vs.first[i][s]; l << vs.second[i]; }
+    l.emit();
+    std::printf("#stat verts:S%zu 1\n", pt.S);
+}
+
 template <class Mod>
 static void emitRTBSS(const char * rep, const PomdpTables & pt, const Mod & model, unsigned h, double maxR, const AIToolbox::Vector & b, bool dyadic) {
     P::RTBSS<Mod> solver(model, maxR);
@@ -77,6 +89,7 @@ static double trueMaxR(const PomdpTables & pt) { return pt.R.maxCoeff(); }
 static void runAll(const PomdpTables & pt, unsigned h, bool dyadic, Rng & rng, int which, int nrandom) {
     Dense dense = toDense(pt);
     if (which & 1) emitVF<P::IncrementalPruning>("IncrementalPruning", "dense", pt, dense, h, dyadic, rng, nrandom);
+    if (which & 1) { P::IncrementalPruning ip(h, 0.0); auto [var, vf] = ip(dense); (void)var; emitVerts(pt, vf.back()); }
     if (which & 2) emitVF<P::Witness>("Witness", "dense", pt, dense, h, dyadic, rng, nrandom);
     if (which & 4) emitVF<P::LinearSupport>("LinearSupport", "dense", pt, dense, h, dyadic, rng, nrandom);
     if (which & 8) {
@@ -178,7 +191,14 @@ void verif::verif_case(Rng & rng, long idx, const std::string & tier) {
         emitRTBSS("dense", q, dq, 3, 0.0, b1, true);
         return;
     }
-    if (idx == 3) { auto p = lsEdgeWitness(); runAll(p, 2, true, rng, 7, 4); return; }
+    if (idx == 3) {
+        auto p = lsEdgeWitness(); runAll(p, 2, true, rng, 7, 4);
+        // the two supports LinearSupport finds at the corners: their partition has exactly two vertices, both on edges
+        P::VList two; AIToolbox::Vector a(3), b(3); a << 8.15625, -2.0625, 5.25; b << 0.9375, -6.0, 7.9375;
+        two.emplace_back(a, 0, P::VObs()); two.emplace_back(b, 1, P::VObs());
+        emitVerts(p, two);
+        return;
+    }
     if (idx < kFixed) return;
 
     // ---- generated instances
